@@ -6,6 +6,7 @@ import (
 	"go/token"
 	"go/types"
 	"math"
+	"sort"
 	"strings"
 
 	"verif/checker/internal/astx"
@@ -825,7 +826,65 @@ func poolHygiene(c *core.Ctx) {
 		c.Unresolved("compressionPool", "type not found")
 		return
 	}
-	helpers := map[string]bool{"compressionPool.getDecompressor": true, "compressionPool.putDecompressor": true, "compressionPool.getCompressor": true, "compressionPool.putCompressor": true}
+	// the helpers that take a (de)compressor out of a sync.Pool and that put one back, whatever they are
+	// called and whether they are methods of compressionPool or functions over the *sync.Pool: a get
+	// helper returns a Compressor / Decompressor and calls Pool.Get (never Put); a put helper has a
+	// Compressor / Decompressor parameter and calls Pool.Put
+	isCodecIface := func(t types.Type) bool {
+		nt := astx.NamedOf(t)
+		return nt != nil && nt.Obj().Pkg() == p.Connect.Types && (nt.Obj().Name() == "Compressor" || nt.Obj().Name() == "Decompressor")
+	}
+	var hasPoolCallAt func(fd *ast.FuncDecl, name string, depth int) bool
+	hasPoolCallAt = func(fd *ast.FuncDecl, name string, depth int) bool {
+		for _, call := range astx.CallsDeep(fd.Body) {
+			f := astx.CalleeFunc(info, call)
+			if f == nil {
+				continue
+			}
+			if f.Name() == name && astx.TypeIs(recvType(f), "sync", "Pool") {
+				return true
+			}
+			// through a first-party helper (a generic getPooled[T](pool *sync.Pool))
+			if depth < 2 && f.Pkg() == p.Connect.Types {
+				g := f
+				if g.Origin() != nil {
+					g = g.Origin()
+				}
+				if hd := p.Decl(g); hd != nil && hd != fd && hd.Body != nil && hasPoolCallAt(hd, name, depth+1) {
+					return true
+				}
+			}
+		}
+		return false
+	}
+	hasPoolCall := func(fd *ast.FuncDecl, name string) bool { return hasPoolCallAt(fd, name, 0) }
+	getHelpers, putHelpers := map[*types.Func]bool{}, map[*types.Func]bool{}
+	var putHelperDecls []*ast.FuncDecl
+	for _, fd := range p.AllFuncDecls(p.Connect) {
+		f := funcOf(info, fd)
+		if f == nil {
+			continue
+		}
+		sig := f.Type().(*types.Signature)
+		returnsCodec, takesCodec := false, false
+		for i := 0; i < sig.Results().Len(); i++ {
+			if isCodecIface(sig.Results().At(i).Type()) {
+				returnsCodec = true
+			}
+		}
+		for i := 0; i < sig.Params().Len(); i++ {
+			if isCodecIface(sig.Params().At(i).Type()) {
+				takesCodec = true
+			}
+		}
+		if returnsCodec && hasPoolCall(fd, "Get") && !hasPoolCall(fd, "Put") {
+			getHelpers[f] = true
+		}
+		if takesCodec && hasPoolCall(fd, "Put") && !hasPoolCall(fd, "Get") {
+			putHelpers[f] = true
+			putHelperDecls = append(putHelperDecls, fd)
+		}
+	}
 	isPoolOp := func(call *ast.CallExpr) (string, bool) {
 		f := astx.CalleeFunc(info, call)
 		if f == nil || !astx.TypeIs(recvType(f), "sync", "Pool") {
@@ -835,7 +894,12 @@ func poolHygiene(c *core.Ctx) {
 		if !ok {
 			return "", false
 		}
-		fld := astx.FieldOf(info, sel.X)
+		// `(&c.compressors).Put(x)` is what inlining a helper over a *sync.Pool parameter leaves
+		recv := astx.Unparen(sel.X)
+		if u, isAddr := recv.(*ast.UnaryExpr); isAddr && u.Op == token.AND {
+			recv = astx.Unparen(u.X)
+		}
+		fld := astx.FieldOf(info, recv)
 		if fld == nil {
 			return "", false
 		}
@@ -844,10 +908,17 @@ func poolHygiene(c *core.Ctx) {
 	// poolGetExpr recognises "take an object out of pool field F and assert its type": `x.F.Get().(T)`, or a
 	// call of a first-party helper handed `&x.F` whose body does the Get on that parameter (a generic
 	// getPooled[T](pool *sync.Pool) (T, bool))
+	var poolGetBody ast.Node // the function being looked at: `v := x.F.Get(); … v.(T)` is resolved in it
 	poolGetExpr := func(e ast.Expr) (string, bool) {
 		e = astx.Unparen(e)
 		if ta, ok := e.(*ast.TypeAssertExpr); ok {
-			if call, ok := astx.Unparen(ta.X).(*ast.CallExpr); ok {
+			src := astx.Unparen(ta.X)
+			if o := astx.ObjOf(info, src); o != nil && poolGetBody != nil {
+				if def := soleDefinition(info, poolGetBody, o); def != nil {
+					src = astx.Unparen(def)
+				}
+			}
+			if call, ok := src.(*ast.CallExpr); ok {
 				if op, isOp := isPoolOp(call); isOp && strings.HasSuffix(op, ".Get") {
 					return op, true
 				}
@@ -910,6 +981,7 @@ func poolHygiene(c *core.Ctx) {
 	getSites := 0
 	for _, fd := range p.AllFuncDecls(p.Connect) {
 		var getAssign *ast.AssignStmt
+		poolGetBody = fd.Body
 		ast.Inspect(fd.Body, func(x ast.Node) bool {
 			as, ok := x.(*ast.AssignStmt)
 			if !ok || len(as.Rhs) != 1 {
@@ -971,12 +1043,9 @@ func poolHygiene(c *core.Ctx) {
 	}
 	c.Floor("functions that take objects out of the (de)compressor pools", getSites, 2)
 	// put*: Close; on error return without Put; Reset then Put
-	for _, name := range []string{"putDecompressor", "putCompressor"} {
-		fd := fn(p, "compressionPool."+name)
-		if fd == nil {
-			c.Unresolved(name, "not found")
-			continue
-		}
+	sort.Slice(putHelperDecls, func(i, j int) bool { return core.FuncName(putHelperDecls[i]) < core.FuncName(putHelperDecls[j]) })
+	for _, fd := range putHelperDecls {
+		name := fd.Name.Name
 		// the pooled object: the interface-typed parameter (the pool itself may have become a leading
 		// parameter when the method was turned into a function)
 		var obj types.Object
@@ -1038,15 +1107,18 @@ func poolHygiene(c *core.Ctx) {
 			if op, ok := isPoolOp(call); ok && strings.HasSuffix(op, ".Get") {
 				return true // taken directly (the get helper was folded into this function)
 			}
+			if _, isGet := poolGetExpr(call); isGet {
+				return true // a generic helper handed the address of the pool field
+			}
 			f := astx.CalleeFunc(info, call)
-			return f != nil && strings.HasPrefix(f.Name(), "get") && helpers["compressionPool."+f.Name()]
+			return f != nil && getHelpers[f]
 		})
 		putCounter := newCallCounter(p, info, func(call *ast.CallExpr) bool {
 			if op, ok := isPoolOp(call); ok && strings.HasSuffix(op, ".Put") {
 				return true
 			}
 			f := astx.CalleeFunc(info, call)
-			return f != nil && strings.HasPrefix(f.Name(), "put") && helpers["compressionPool."+f.Name()]
+			return f != nil && putHelpers[f]
 		})
 		astx.ForEachExit(info, fd.Body, func(s *astx.State, kind astx.ExitKind, ret *ast.ReturnStmt) {
 			getsLo, getsHi := getCounter.ofState(s, ret, 2)
@@ -1054,6 +1126,51 @@ func poolHygiene(c *core.Ctx) {
 			getFailed := false
 			// the path returned right after a failed get (err != nil of the get)
 			for gi, st := range s.Steps {
+				// the get helper folded into this function: the Reset onto the caller's source right after the
+				// Get is part of the get, and its failure is the get's failure (the object is dropped)
+				if as, ok := st.(*ast.AssignStmt); ok && len(as.Lhs) == len(as.Rhs) && gi > 0 {
+					for ri, r := range as.Rhs {
+						rc, isCall := astx.Unparen(r).(*ast.CallExpr)
+						if !isCall || !isMethodNamed(info, rc, "Reset") || len(rc.Args) != 1 {
+							continue
+						}
+						if t := info.TypeOf(rc); t == nil || !types.Identical(t, types.Universe.Lookup("error").Type()) {
+							continue
+						}
+						// directly after the pool's Get on this path
+						afterGet := false
+						for _, prev := range s.Steps[:gi] {
+							for _, pc := range astx.Calls(prev) {
+								if op, isOp := isPoolOp(pc); isOp && strings.HasSuffix(op, ".Get") {
+									afterGet = true
+								}
+								if op, isOp := isPoolOp(pc); isOp && strings.HasSuffix(op, ".Put") {
+									afterGet = false
+								}
+							}
+						}
+						errObj := astx.ObjOf(info, as.Lhs[ri])
+						if !afterGet || errObj == nil {
+							continue
+						}
+						next := len(s.Steps) + 1
+						for j := gi + 1; j < len(s.Steps); j++ {
+							if as2, ok := s.Steps[j].(*ast.AssignStmt); ok {
+								for _, l := range as2.Lhs {
+									if astx.ObjOf(info, l) == errObj && j < next {
+										next = j
+									}
+								}
+							}
+						}
+						for _, tf := range s.Taken {
+							l, op, rr, ok := astx.CompareOp(tf.Expr)
+							if ok && tf.At > gi && tf.At <= next && astx.IsNil(info, rr) && astx.ObjOf(info, l) == errObj && (op == token.NEQ) == tf.Pol {
+								getFailed = true
+							}
+						}
+					}
+				}
 				if as, ok := st.(*ast.AssignStmt); ok && len(as.Rhs) == 1 && len(as.Lhs) == 2 {
 					// taken directly from the pool: the type assertion's ok plays the role of the get's error
 					if ta, isTA := astx.Unparen(as.Rhs[0]).(*ast.TypeAssertExpr); isTA {
@@ -1067,7 +1184,7 @@ func poolHygiene(c *core.Ctx) {
 						}
 					}
 					if call, ok := as.Rhs[0].(*ast.CallExpr); ok {
-						if f := astx.CalleeFunc(info, call); f != nil && strings.HasPrefix(f.Name(), "get") {
+						if f := astx.CalleeFunc(info, call); f != nil && getHelpers[f] {
 							errObj := astx.ObjOf(info, as.Lhs[1])
 							// the test of the get's own error: taken after the get and before err is assigned again
 							next := len(s.Steps) + 1
